@@ -8,7 +8,7 @@ Open Scope list_scope.
 (* ------------------------------------------------------------------------------------ *)
 (* Obligations on what T1 read from /repo (each breaks by name when the source changes)  *)
 
-Lemma sortkey_fields_ok : sortkey_fields = [FVersion; FExtra; FType; FTag].
+Lemma sortkey_fields_ok : sortkey_fields = [FVersion; FExtra; FType; FTag; FFile].
 Proof. reflexivity. Qed.
 Lemma sort_reverse_ok : sort_reverse = true.
 Proof. reflexivity. Qed.
